@@ -348,6 +348,23 @@ def Q.addNotifyWaitPop (q : Q) (ins outs : List Buf) (devLen : Nat) : Q Ã— Res Ã
 def Q.devUsed (q : Q) (id len : Nat) : Q :=
   { q with usedRing := q.usedRing.setIfInBounds (q.usedIdx % q.n) (id, len), usedIdx := (q.usedIdx + 1) % U16 }
 
+/-- an optional device completion -/
+def Q.devUsedOpt (q : Q) : Option (Nat Ã— Nat) â†’ Q
+  | some (id, len) => q.devUsed id len
+  | none => q
+
+/-- `add_notify_wait_pop` when the completion that ends its wait is **not** its own: the device
+    reports `foreign = some (id, len)` during the wait, or (`none`) an earlier completion was already
+    pending when the call was made.  The call submits, possibly notifies, and then pops with its own
+    token. -/
+def Q.addNotifyWaitPopForeign (q : Q) (ins outs : List Buf) (foreign : Option (Nat Ã— Nat)) :
+    Q Ã— Res Ã— List Ev Ã— Bool :=
+  match q.add ins outs with
+  | (q1, .token t, evs) =>
+    let (q3, r, evs2) := (q1.devUsedOpt foreign).popUsed t ins outs
+    (q3, r, evs ++ evs2, q1.shouldNotify)
+  | (q1, r, evs) => (q1, r, evs, false)
+
 def Q.devSetUsedIdx (q : Q) (v : Nat) : Q := { q with usedIdx := v % U16 }
 def Q.devSetUsedElem (q : Q) (slot id len : Nat) : Q :=
   { q with usedRing := q.usedRing.setIfInBounds slot (id, len) }
@@ -523,6 +540,10 @@ def handle (q : Q) (op : String) (a : Proto.Args) : Q Ã— String :=
   match op with
   | "table" => (q, s!"digest={(tableRow q (a.nat "a")).toNat}")
   | "tableflags" => (q, s!"digest={(tableFlags q).toNat}")
+  | "anwpf" =>
+    let f := match a.nat? "fid" with | some id => some (id, a.nat "flen") | none => none
+    let (q', r, evs, nt) := q.addNotifyWaitPopForeign (parseBufs (a.str "in")) (parseBufs (a.str "out")) f
+    (q', s!"{outStr q q' r evs} notify={Proto.b2s nt}")
   | "anwp" =>
     let (q', r, evs, nt) := q.addNotifyWaitPop (parseBufs (a.str "in")) (parseBufs (a.str "out")) (a.nat "len")
     (q', s!"{outStr q q' r evs} notify={Proto.b2s nt}")
